@@ -372,7 +372,8 @@ int main(int argc, char **argv) {
                 static Rig      rig;
                 const Operand   big{"10000000000000000000", num(10000000000000000000.0L, 0)};
                 const Operand   big2{"18446744073709551615", num(18446744073709551615.0L, 0)};
-                static std::vector<Operand> small = {{"1", num(1, 0)}, {"5", num(5, 0)}, {"2.5", num(2.5L, 2)}, {"0", num(0, 0)}};
+                static std::vector<Operand> small = {{"1", num(1, 0)}, {"5", num(5, 0)}, {"2.5", num(2.5L, 2)}, {"0", num(0, 0)},
+                                                            {"-2.5", num(-2.5L, 2)}, {"-5", num(-5, 1)}, {"7.25", num(7.25L, 2)}, {"0.5", num(0.5L, 2)}};
                 for (const Operand *b : {&big, &big2}) {
                     if (ctx.next()) {
                         ctx.acc.count("states");
